@@ -18,6 +18,7 @@ def P(qr, qw, tr, tw, **kw):
 PLAN = {
     "C01": P(6000, 75, 200000, 900),
     "C02": P(5000, 75, 150000, 900),
+    "C12": P(1500, 100, 40000, 1200, chunk=150),
     "C11": P(1200, 100, 30000, 1200, chunk=150),
     "C10": P(1200, 100, 30000, 1200, chunk=150),
     "C09": P(1200, 100, 30000, 1200, chunk=150),
@@ -29,6 +30,11 @@ PLAN = {
 }
 
 LEVELS = {
+    "C12": {"level": "exploration", "rule": RULE,
+            "text": "the real diamond implementation driven through sampled interleavings of 1-3 split ids x up to 3 runs each (concurrent second runs, crashes at a chosen write and re-runs), an early committer racing the uploads, a committer crashed before its bundle descriptor and retried, and a canceller racing the commit. Oracles: at most one bundle.yaml per diamond; commits/new splits refused once the diamond is terminal; a done split cannot be rerun; the bundle is exactly the merge (C11 oracle) of the done generation of every split whose split-done landed before the winning commit was invoked (those landing during it may or may not be in). Two recorded findings (two bundles after concurrent commits / after a commit that died past its bundle descriptor is retried) are reproduced by directed scenarios and excluded from the open search",
+            "note": "decided by simulation of the implementation only; the exhaustive protocol model the quantifier also mentions is model checking, outside this technique family (DESIGN §6 C12)",
+            "components": {"real": ["pkg/core diamond/split/commit/cancel/list"], "stub": STUB},
+            "assumptions": ["at most one committer alive per diamond in the open search", "no commit retry once a bundle descriptor of the diamond has landed"]},
     "C11": {"level": "exploration", "rule": RULE,
             "text": "1..8 splits over 6 shared paths with contents from a 3-value alphabet (forcing identical duplicates) are uploaded by separate clients at distinct simulated times (some concurrently); the diamond is cloned object-for-object and committed six times (conflicts x2, ignore, checkpoints x2, forbid), each time with the arrival order of the split file lists chosen by the scheduler among all parked index-file reads. Oracle computed from the stored split entries only: latest upload time wins per path, every distinct losing version kept under the split that uploaded it, identical contents are no conflicts, no side paths in ignore mode, forbid fails iff two splits differ on a path, flags consistent, same-mode commits identical (order independence), main tree identical across modes, single-split diamond == plain upload",
             "note": "exact ties of upload stamps between different contents are accepted either way; trusts simstore",
